@@ -145,6 +145,19 @@ def c_load_git(P):
         may_raise(P_, "load", ["LoadingError", "ModuleNotFoundError", "SyntaxError", "KeyboardInterrupt", "ValueError"])
         return Opaque("loaded_object", z3.Int("loaded_id"))
     P.opaque_hooks["_griffe.loader:load"] = load
+    # the same work done through a loader object built in place: every pass that may read the checkout is an event
+    P.opaque_hooks["new:GriffeLoader"] = lambda P_, a, k: SObj("GriffeLoaderObject", {}, ident=P_.new_ident())
+    P.attr_hooks[("GriffeLoaderObject", "load")] = lambda P_, o: BoundMethod(o, lambda P__, s_, a, k: load(P__, a, k))
+
+    def other_pass(name):
+        def hook(P_, o):
+            def run(P__, s_, a, k):
+                events.append(name)
+                return (set(), 0)
+            return BoundMethod(o, run)
+        return hook
+    for _pass in ("resolve_aliases", "expand_exports", "expand_wildcards", "resolve_module_aliases"):
+        P.attr_hooks[("GriffeLoaderObject", _pass)] = other_pass(_pass)
     # worktree / path
     import pyvc.models as M
     orig_binop = M.binop
@@ -156,10 +169,13 @@ def c_load_git(P):
     M.binop = binop
     try:
         sp = opt(P, "search_paths", lambda: [Opaque("lenient:p1"), Opaque("lenient:p2")])
-        kind, res = outcome(P, lambda: call(P, "_griffe.loader:load_git", P.fresh_str("objspec"), ref=P.fresh_str("ref"), repo=P.fresh_str("repo"), search_paths=sp))
+        flags = {nm: P.fresh_bool(nm) for nm in ("resolve_aliases", "resolve_external", "resolve_implicit", "submodules", "allow_inspection", "force_inspection", "find_stubs_package")}
+        flags["resolve_external"] = opt(P, "resolve_external_none", lambda: flags["resolve_external"])
+        kind, res = outcome(P, lambda: call(P, "_griffe.loader:load_git", P.fresh_str("objspec"), ref=P.fresh_str("ref"), repo=P.fresh_str("repo"), search_paths=sp, **flags))
     finally:
         M.binop = orig_binop
-    P.prove("loader_runs_inside_the_worktree_context", events in (["enter", "load", "exit"],), events=str(events))
+    inside = events[:1] == ["enter"] and events[-1:] == ["exit"] and events.count("enter") == 1 and events.count("exit") == 1 and events.count("load") == 1
+    P.prove("loader_runs_inside_the_worktree_context", inside, events=str(events))
     if kind == "ok":
         P.prove("returns_the_loaded_object", isinstance(res, Opaque) and res.tag == "loaded_object")
         P.prove("load_succeeded", z3.Not(z3.Bool("load_raises")))
